@@ -125,28 +125,34 @@ def fault_records(ck, tree, messages, nworkers=16):
     q = queue.Queue()
     for mi, m in enumerate(messages):
         for k in range(1, ncalls + 12):
-            q.put((mi, m, k))
+            q.put((mi, m, k, "5"))
+            # a write that takes only part of what it is given (legal for write(2)): the rest must follow, nothing twice
+            for short in ("short1", "short987", "short500"):
+                q.put((mi, m, k, short))
     recs = []
     lock = threading.Lock()
 
     def work(ep):
         while True:
             try:
-                mi, m, k = q.get_nowait()
+                mi, m, k, what = q.get_nowait()
             except queue.Empty:
                 return
-            t = ck.scratch.path("fault.%d.%d.trace" % (mi, k))
-            env = sandbox.shim_env(tree, trace=t, role="remote", extra={"VERIF_FAULT": "%d:5" % k})
+            t = ck.scratch.path("fault.%d.%d.%s.trace" % (mi, k, what))
+            env = sandbox.shim_env(tree, trace=t, role="remote", extra={"VERIF_FAULT": "%d:%s" % (k, what)})
             obs, out, rc = smtpsrv.run_remote(tree, ep, bytes(m), "s@sender.test", ["r@" + ep.host], {"rawdata": True}, env=env, timeout=8.0)
-            hit = [e for e in sandbox.read_trace(t) if e.get("res") == -1 and e.get("e") == 5]
+            tev = sandbox.read_trace(t)
+            hit = [e for e in tev if (e.get("res") == -1 and e.get("e") == 5) or e.get("inj")]
             os.unlink(t) if os.path.exists(t) else None
+            if what != "5" and not hit:
+                continue          # the k-th call was not a write: nothing was injected, the run is a duplicate of the clean one
             raw = obs.get("raw", b"")
             if raw.endswith(b"QUIT\r\n"):
                 raw = raw[:-6]
             first = out[:1].decode("latin1")
             res = "ok" if b"\0K" in out or first == "K" else "failed"
             with lock:
-                recs.append({"i": list(m), "c": 0, "o": list(raw), "r": res, "k": k, "on": (hit[0].get("c", "?") + ":" + str(hit[0].get("fd", ""))) if hit else "none",
+                recs.append({"i": list(m), "c": 0, "o": list(raw), "r": res, "k": k, "on": ((hit[0].get("c", "?") + ":" + str(hit[0].get("fd", ""))) if hit else "none") + ("" if what == "5" else "/" + what),
                              "report": out.decode("latin1")[:120]})
 
     ths = [threading.Thread(target=work, args=(ep,)) for ep in eps]
@@ -219,6 +225,7 @@ def main():
         recs += frecs
         ck.cov["runs_with_one_failing_call"] = len(frecs)
         ck.cov["failing_reads_of_the_message"] = len([r for r in frecs if r["on"] == "read:0"])
+        ck.cov["short_writes_on_the_connection"] = len([r for r in frecs if "/short" in r["on"]])
         if not ck.cov["failing_reads_of_the_message"]:
             raise Infra("no injected fault hit a read of the message")
         ck.cov["seam_available"] = seam_ok
